@@ -988,18 +988,32 @@ def inplace_update(eng, a, newv):
     return a
 
 
+def trunc_to_int(v):
+    """C cast double -> int64 (toward zero); nan/inf and out-of-range values are outside the model."""
+    if isinstance(v, float):
+        if v != v or v in (float("inf"), float("-inf")):
+            raise Unsupported("storing nan/inf into an integer array")
+        return int(v)
+    if isinstance(v, Fraction):
+        return int(v)
+    if isinstance(v, (int, bool)):
+        return int(v)
+    if isinstance(v, z3.ArithRef) and v.is_int():
+        return v
+    v = T.zr(v)
+    return z3.If(v >= 0, z3.ToInt(v), -z3.ToInt(-v))
+
+
 def arr_setitem(eng, a, idx, value):
     I = _I()
     check_writable(a)
     old = a.fn
     value = as_array_if_seq(eng, value)
     if a.dtype == "int" and not isinstance(value, (I.Arr, I.Opaque)) and val_dtype(value) == "real":
-        # NumPy truncates silently; integers stay integers in the model only if value is integral
-        c = value
-        if isinstance(c, Fraction) and c.denominator == 1:
-            value = int(c)
-        else:
-            raise Unsupported("storing a real into an integer array")
+        value = trunc_to_int(value)       # NumPy truncates silently (toward zero)
+    if a.dtype == "int" and isinstance(value, I.Arr) and value.dtype == "real":
+        vf_ = value.fn
+        value = I.Arr(value.shape, lambda *i: trunc_to_int(vf_(*i)), "int")      # NumPy truncates silently (toward zero)
     if isinstance(idx, tuple) and len(idx) == 1 and isinstance(idx[0], I.Opaque) and idx[0].kind == "where":
         idx = idx[0].data["mask"]
     if isinstance(idx, I.Opaque) and idx.kind == "where":
